@@ -9,7 +9,7 @@ from pyvc.ext_c09 import (PoolOf, RefT, allocated, dict_same, dict_same_except, 
                           is_instance_of, is_new, now, obj_same, pool_new, pool_same_except)
 
 from contracts.c09_close import ABORT_MOD, CHAN_MOD
-from contracts.c09_tables import (CHAN, CL_CLOSED, CL_OPEN, CL_WAIT_DISCONNECT, HEAP, LE_DISCONNECTED, MGR, PENDING, WF_NAMES,
+from contracts.c09_tables import (PER_CONN_REQUESTS, pending_request, wf_requests, CHAN, CL_CLOSED, CL_OPEN, CL_WAIT_DISCONNECT, HEAP, LE_DISCONNECTED, MGR, PENDING, WF_NAMES,
                                   closed, distinct, entry, inner, is_le, le_open, wf)
 
 
@@ -171,6 +171,8 @@ def link_lost_post(self, connection_handle, old, ghost):
         h not in self.le_coc_channels and dict_same_except(self.le_coc_channels, le0, [h]),
         h not in self.pending_credit_based_connections and dict_same_except(self.pending_credit_based_connections, old.self.pending_credit_based_connections, [h]),
         h not in self.identifiers and dict_same_except(self.identifiers, old.self.identifiers, [h]),
+        # no LE connection request of the lost link stays pending (its identifiers will be used again by the next link)
+        forall(0, 256, lambda k: pending_request(self, ghost, h, k) is None),
         pool_same_except(ghost.cdicts, old.ghost.cdicts, [inner(le0, h)]),
         pool_same_except(ghost.odicts, old.ghost.odicts, [self.channels, self.le_coc_channels]),
     ] + all_aborted(self, h, old, ghost) + [
@@ -179,7 +181,7 @@ def link_lost_post(self, connection_handle, old, ghost):
     ] + others(self, h, old, ghost) + wf(self, None) + [chan_inv(self)]
 
 
-LINK_NAMES = ['gone-from-channels', 'gone-from-le-coc-channels', 'gone-from-pending-requests', 'gone-from-identifiers', 'other-inner-tables-untouched', 'other-outer-tables-untouched',
+LINK_NAMES = ['gone-from-channels', 'gone-from-le-coc-channels', 'gone-from-pending-requests', 'gone-from-identifiers', 'no-le-request-left-pending', 'other-inner-tables-untouched', 'other-outer-tables-untouched',
               'every-channel-of-the-link-aborted', 'pending-requests-released', 'other-channels-untouched', 'other-futures-untouched'] + WF_NAMES + ['futures-invariant']
 
 contract(
@@ -193,7 +195,7 @@ contract(
     invariants={0: inv_loop0, 1: inv_loop1, 2: inv_loop2},
     decreases={0: lambda _i, _keys: len(_keys) - _i, 1: lambda _i, _keys: len(_keys) - _i, 2: lambda _i, _keys: len(_keys) - _i},
     uses=['bumble.l2cap:LeCreditBasedChannel.abort@callee', 'bumble.l2cap:ClassicChannel.abort@callee'],
-    modifies=ABORT_MOD + ['ghost.odicts', 'ghost.idicts', 'ghost.pdicts', 'ghost.podicts'],
+    modifies=ABORT_MOD + ['ghost.odicts', 'ghost.idicts', 'ghost.pdicts', 'ghost.podicts'] + (['ghost.rodicts'] if PER_CONN_REQUESTS else []),
 )
 
 
